@@ -94,7 +94,9 @@ def fallback_verdict(doc_text, has_tr, has_sec, mode, parser):
             return f'count: copy_all ({"forced" if forced else "fallback"}) gave {len(tracts)} tracts'
         if forced and str(tracts[0].desc) != doc_text:
             return 'not-whole: the forced copy_all tract does not carry the entire text'
-        if not forced and not whole(tracts[0].desc, doc_text):
+        if not forced and str(tracts[0].desc).strip() != doc_text.strip():
+            # the layout is deduced as copy_all (no Twp/Rge or no section at all): no clean-up is applied (the real preprocessor
+            # strips outer white space, the stand-in of this harness does not: that much is tolerated)
             return 'not-whole: the fallback tract does not carry the entire text'
         if not forced and not parser.e_flags:
             return 'no-flag: fallback without both a Twp/Rge and a section, but no error flag'
